@@ -996,26 +996,118 @@ func genSelects(repo, out string) {
 	fmt.Fprintf(&g.buf, "structure Sel where\n  file : String\n  fn : String\n  ord : Nat\n  cases : List String\n  deriving Repr, DecidableEq\n\n")
 	fmt.Fprintf(&g.buf, "structure Bare where\n  file : String\n  fn : String\n  kind : String\n  expr : String\n  deriving Repr, DecidableEq\n\n")
 	fmt.Fprintf(&g.buf, "structure GoStmt where\n  file : String\n  fn : String\n  call : String\n  guard : String\n  deriving Repr, DecidableEq\n\n")
-	files := []string{"rpc.go", "scanner.go", "client.go", "caches.go", "admin_client.go",
-		filepath.Join("region", "client.go"), filepath.Join("region", "new.go"),
-		filepath.Join("region", "multi.go"), filepath.Join("region", "info.go")}
+	// The facts are per package ("gohbase" = the root package, "region"), not per file, and a helper
+	// that is not one of the functions the theorems name is read as part of its callers, at each call
+	// site: moving a function to another file of its package, or extracting a block into a new helper
+	// (a refactoring that keeps every wait where it was on the caller's path), leaves the facts as
+	// they are. A new function that blocks and that no named function calls is listed under its own
+	// name (and is then an unlisted wait for the theorems).
+	anchors := map[string]bool{}
+	for _, a := range strings.Fields(`gohbase:client.Close gohbase:client.CreateSnapshot gohbase:client.MarshalJSON
+		gohbase:client.clientDown gohbase:client.establishRegion gohbase:client.findAllRegions gohbase:client.findRegion
+		gohbase:client.getRegionAndClientForRPC gohbase:client.handleResultError gohbase:client.lookupRegion
+		gohbase:client.reestablishRegion gohbase:client.waitForCompletion gohbase:client.zkLookup gohbase:scanner.Next
+		gohbase:scanner.closeRegionScanner gohbase:scanner.peek gohbase:scanner.renewLoop gohbase:sendBlocking
+		gohbase:sleepAndIncreaseBackoff region:client.Dial region:client.MarshalJSON region:client.QueueBatch
+		region:client.QueueRPC region:client.fail region:client.processRPCs region:client.receive region:client.receiveRPCs
+		region:multi.returnResults region:returnResult
+		gohbase:client.SendRPC gohbase:client.SendBatch gohbase:client.findClients gohbase:client.sendBatchToRegionServers
+		gohbase:client.lookupAllRegions gohbase:client.metaLookup gohbase:client.metaLookupForTable
+		gohbase:client.checkProcedureWithBackoff gohbase:scanner.fetch gohbase:scanner.request gohbase:scanner.Close
+		gohbase:scanner.renew region:client.send region:client.trySend region:client.sendHello region:client.Close`) {
+		anchors[a] = true
+	}
+	type pkgFile struct {
+		rel string
+		f   *ast.File
+	}
 	var sels, bares, gos []string
-	for _, rel := range files {
-		f := parse(filepath.Join(repo, rel))
-		if f == nil {
-			g.fail("cannot parse " + rel)
+	for _, pk := range []struct{ label, dir string }{{"gohbase", ""}, {"region", "region"}} {
+		ents, err := os.ReadDir(filepath.Join(repo, pk.dir))
+		if err != nil {
+			g.fail("cannot list " + pk.dir)
 			continue
 		}
-		for _, d := range f.Decls {
-			fd, ok := d.(*ast.FuncDecl)
-			if !ok || fd.Body == nil {
+		var pfiles []pkgFile
+		decls := map[string]*ast.FuncDecl{}
+		for _, e := range ents {
+			n := e.Name()
+			if e.IsDir() || !strings.HasSuffix(n, ".go") || strings.HasSuffix(n, "_test.go") || n == "verif_hooks.go" || n == "prometheus.go" {
+				continue
+			}
+			f := parse(filepath.Join(repo, pk.dir, n))
+			if f == nil {
+				g.fail("cannot parse " + n)
+				continue
+			}
+			pfiles = append(pfiles, pkgFile{n, f})
+			for _, d := range f.Decls {
+				if fd, ok := d.(*ast.FuncDecl); ok && fd.Body != nil {
+					decls[funcName(fd)] = fd
+				}
+			}
+		}
+		// the declaration a call refers to, when it is a function or method of this package
+		callee := func(within *ast.FuncDecl, ce *ast.CallExpr) *ast.FuncDecl {
+			switch fn := ce.Fun.(type) {
+			case *ast.Ident:
+				return decls[fn.Name]
+			case *ast.SelectorExpr:
+				// a method called on the receiver of the enclosing method
+				if within.Recv != nil && len(within.Recv.List) == 1 && len(within.Recv.List[0].Names) == 1 {
+					if id, ok := fn.X.(*ast.Ident); ok && id.Name == within.Recv.List[0].Names[0].Name {
+						rt := strings.Split(funcName(within), ".")[0]
+						return decls[rt+"."+fn.Sel.Name]
+					}
+				}
+			}
+			return nil
+		}
+		// non-anchor helpers reached from an anchor are not reported on their own
+		inlined := map[string]bool{}
+		var inspectInl func(within *ast.FuncDecl, n ast.Node, depth int, visit func(ast.Node) bool)
+		inspectInl = func(within *ast.FuncDecl, n ast.Node, depth int, visit func(ast.Node) bool) {
+			ast.Inspect(n, func(m ast.Node) bool {
+				if !visit(m) {
+					return false
+				}
+				if ce, ok := m.(*ast.CallExpr); ok && depth < 4 {
+					if h := callee(within, ce); h != nil && h != within && !anchors[pk.label+":"+funcName(h)] {
+						inlined[funcName(h)] = true
+						if os.Getenv("EXTRACT_DEBUG") != "" {
+							fmt.Fprintln(os.Stderr, "inline", pk.label, funcName(within), "<-", funcName(h))
+						}
+						inspectInl(h, h.Body, depth+1, visit)
+					}
+				}
+				return true
+			})
+		}
+		// first pass: which helpers are inlined somewhere (from an anchor or from another reported function)
+		var order []*ast.FuncDecl
+		for _, pf := range pfiles {
+			for _, d := range pf.f.Decls {
+				if fd, ok := d.(*ast.FuncDecl); ok && fd.Body != nil {
+					order = append(order, fd)
+				}
+			}
+		}
+		sort.SliceStable(order, func(i, j int) bool { return funcName(order[i]) < funcName(order[j]) })
+		for _, fd := range order {
+			if anchors[pk.label+":"+funcName(fd)] {
+				inspectInl(fd, fd.Body, 0, func(ast.Node) bool { return true })
+			}
+		}
+		rel := pk.label
+		for _, fd := range order {
+			if !anchors[pk.label+":"+funcName(fd)] && inlined[funcName(fd)] {
 				continue
 			}
 			name := funcName(fd)
 			ord := 0
 			// positions of channel operations that belong to a select's comm clauses
 			inSelect := map[token.Pos]bool{}
-			ast.Inspect(fd.Body, func(n ast.Node) bool {
+			inspectInl(fd, fd.Body, 0, func(n ast.Node) bool {
 				if ss, ok := n.(*ast.SelectStmt); ok {
 					var cs []string
 					for _, c := range ss.Body.List {
@@ -1082,7 +1174,7 @@ func genSelects(repo, out string) {
 			}
 			walkGo(fd.Body, "")
 			// bare blocking operations
-			ast.Inspect(fd.Body, func(n ast.Node) bool {
+			inspectInl(fd, fd.Body, 0, func(n ast.Node) bool {
 				switch x := n.(type) {
 				case *ast.SendStmt:
 					if !inSelect[x.Pos()] {
